@@ -483,6 +483,16 @@ def build_objects(spec, lane, cfg):
 
     # static material boxes ---------------------------------------------------------------------
     for i, o in enumerate(spec.get("objects", [])):
+        if o.get("sphere") and edges64 is None:
+            # ellipsoid inscribed in the box lo..hi (a StaticMultiMaterialObject: its writes go through the
+            # mask-based, sharding-preserving "add" path rather than a plain slice assignment)
+            r = [(o["hi"][a] - o["lo"][a]) * d / 2.0 for a in range(3)]
+            ob = fdtdx.Sphere(radius=r[0], radius_x=r[0], radius_y=r[1], radius_z=r[2],
+                              materials={"m0": _mat(o["material"])}, material_name="m0",
+                              name=o.get("name", f"sphere{i}"), placement_order=o.get("order", 0))
+            objs.append(ob)
+            cons.append(ob.set_grid_coordinates(axes=(0, 1, 2), sides=("-", "-", "-"), coordinates=tuple(o["lo"])))
+            continue
         ob = fdtdx.UniformMaterialObject(material=_mat(o["material"]), name=o.get("name", f"box{i}"),
                                          placement_order=o.get("order", 0))
         put(ob, o["lo"], o["hi"])
